@@ -158,7 +158,16 @@ def bf3_spec(rng, max_comps=5, p_enc=0.0, max_len=600, oversize_ok=False):
     ncomp = rng.choice([0, 1, 1, 1, 2, 2, 3, max_comps])
     comps = [component_spec(rng, enc=(rng.random() < p_enc), max_len=max_len,
                             oversize_ok=oversize_ok) for _ in range(ncomp)]
-    return {"comments": comments_spec(rng), "components": comps}
+    spec = {"comments": comments_spec(rng), "components": comps}
+    r = rng.random()
+    if r < 0.03 and comps:
+        spec["alias_first"] = True
+    elif r < 0.033:
+        # a package with more than 255 components (directory entry indices beyond one byte)
+        n = rng.randint(256, 270)
+        spec["components"] = [{"desc": [], "blob": {"len": 1 + (i % 3), "fill": "rand", "tail0": 0, "s": i},
+                               "alen": None, "enc": False} for i in range(n)]
+    return spec
 
 
 def build_bf3(spec, env):
@@ -167,6 +176,8 @@ def build_bf3(spec, env):
         desc = {int(t): bytes.fromhex(v) for t, v in c["desc"]}
         comps.append(env.bf3file.Bf3Component(desc, make_blob(c["blob"]), c["alen"],
                                               encrypt_by_session_key=c["enc"]))
+    if spec.get("alias_first") and comps:
+        comps.append(comps[0])          # the very same component object listed a second time
     obj = env.bf3file.Bf3File({k: v for k, v in spec["comments"]}, comps)
     if spec.get("config") is not None:
         obj.set_config(config_dict(spec["config"]), [bytes.fromhex(x) for x in spec.get("extra", [])])
@@ -181,6 +192,8 @@ def model_of(spec):
         alen = c["alen"] or len(blob)
         comps.append({"desc": [(int(t), bytes.fromhex(v)) for t, v in c["desc"]],
                       "blob": blob, "alen": alen, "enc": c["enc"]})
+    if spec.get("alias_first") and comps:
+        comps.append(dict(comps[0]))
     return {"comments": {k: v for k, v in spec["comments"]}, "components": comps}
 
 
